@@ -1831,6 +1831,13 @@ class Scheduler:
             return True
         if self.is_paused:  # cannot be stalled it's not even running
             return False
+        self.pool.compute_runahead()
+        if self.pool.release_runahead_tasks():
+            # Tasks spawned, or freed by a runahead limit that moved on,
+            # during this main loop iteration (e.g. the tasks holding the
+            # limit back were just removed) were still flagged as runahead
+            # limited: they can run, so the workflow is not stalled.
+            return False
         if self.pool.is_stalled():
             self.is_stalled = True
             self.update_data_store()
